@@ -70,7 +70,31 @@ func unguarded(f *ssa.Function, from []engine.Point, target ssa.Instruction, gua
 		From:   from,
 		Target: func(in ssa.Instruction) bool { return in == target },
 		CutEdge: func(b *ssa.BasicBlock, i int, l *Lit) bool {
-			return l != nil && guard(*l)
+			if l == nil {
+				return false
+			}
+			if guard(*l) {
+				return true
+			}
+			// the guard may be established by a boolean helper that was branched on:
+			// on each of the helper's paths to this outcome some literal satisfies it
+			alts := engine.ExpandLitDNF(*l)
+			if len(alts) == 0 {
+				return false
+			}
+			for _, alt := range alts {
+				hit := false
+				for _, il := range alt {
+					if guard(il) {
+						hit = true
+						break
+					}
+				}
+				if !hit {
+					return false
+				}
+			}
+			return true
 		},
 	}.Find()
 }
